@@ -64,13 +64,17 @@ class Check(PropertyCheck):
                   "over the modelled fallback/error branches), prettify_returns_escaped (static scan of prettify_message), "
                   "symbol tables round-trip (types/classes/op codes/response codes, regenerated), record-data and whole-message "
                   "JSON mapping round trip `dns_view_roundtrip_partial` (reserved = 0, record data representable, YAML text clean "
-                  "and loadable) with the three counterexample theorems for the recorded defects. The property sentence is checked "
+                  "and loadable) with the three counterexample theorems for the recorded defects; https_records.py and "
+                  "HTTPSRecord.to_json/from_json transcribed (Model/C50_Https.lean): priority_roundtrip (all 65536 SvcPriority values), "
+                  "params_roundtrip (any order, unknown keys), svc_key_roundtrip, https_json_roundtrip (values via C51's theorem), "
+                  "https_reencode_exact: every HTTPS rdata the decoder accepts is re-encoded byte for byte, the name codec being the only parameter. The property sentence is checked "
                   "directly as an oracle: every registered view x random and structured bodies x message kinds: no exception, "
                   "clean text; DNS: reencode_message(prettify_message(m)) decoded by mitmproxy.dns equals the original.")
     level_note = ("partial: the DNS round trip is proved only under the guard (reserved = 0, every NS/CNAME/PTR/TXT rdata decodable, "
                   "no U+0085 in the YAML, YAML load o dump identity) — the excluded classes are genuine defects recorded as F-C50a/b/c/d. Assumed (parameters "
-                  "with laws, validated by the tie, not proved): ruamel YAML dump/load, the IPv4/IPv6/IDNA/UTF-8/HTTPS-record codecs "
-                  "are partial inverses; Rust and Python view bodies are black boxes (arbitrary functions in the theorem; their "
+                  "with laws, validated by the tie, not proved): ruamel YAML dump/load, the IPv4/IPv6/IDNA/UTF-8 codecs "
+                  "are partial inverses (the HTTPS-record codec is no longer assumed: transcribed and proved up to the domain-name codec, "
+                  "tied by the `https` driver op on structured, mutated and truncated rdata with the ASCII non-ACE name codec); Rust and Python view bodies are black boxes (arbitrary functions in the theorem; their "
                   "exceptions are modelled as the `raised` input). Decoding for the oracle uses mitmproxy.dns itself; inputs that "
                   "mitmproxy.dns does not reproduce by pack/unpack alone (C25/C26 territory) are skipped.")
     technique = "Lean 4 proof (C49 table theorem + DNS JSON-mapping model with codec laws) + translator + view fuzzing oracle and model-vs-code correspondence"
@@ -91,7 +95,11 @@ class Check(PropertyCheck):
                     "mitmproxy.dns:ResourceRecord._data_json", "mitmproxy.dns:ResourceRecord.from_json",
                     "mitmproxy.dns:Question.to_json", "mitmproxy.dns:Question.from_json",
                     "mitmproxy.utils.strutils:escape_control_characters",
-                    "mitmproxy.contrib.wbxml.ASWBXMLByteQueue:ASWBXMLByteQueue.dequeueAndLog"]
+                    "mitmproxy.contrib.wbxml.ASWBXMLByteQueue:ASWBXMLByteQueue.dequeueAndLog",
+                    "mitmproxy.net.dns.https_records:unpack", "mitmproxy.net.dns.https_records:_unpack_params",
+                    "mitmproxy.net.dns.https_records:pack", "mitmproxy.net.dns.https_records:_pack_params",
+                    "mitmproxy.net.dns.https_records:HTTPSRecord.to_json", "mitmproxy.net.dns.https_records:HTTPSRecord.from_json",
+                    "mitmproxy.net.dns.https_records:SVCParamKeys"]
     trusted_base = ["ruamel.yaml dump/load, ipaddress, the idna and utf-8 codecs, https_records pack/unpack as codec parameters with partial-inverse laws",
                     "mitmproxy.dns pack/unpack as the decoder of the re-encoded message (inputs it does not reproduce are skipped)",
                     "content view bodies (Python and Rust) are arbitrary functions"]
